@@ -154,6 +154,13 @@ def family():
         paths={"/users": {"get": {"operationId": "listAll", "tags": ["users"], "responses": jr("U")}},
                "/groups": {"get": {"operationId": "list_all", "tags": ["groups"], "parameters": [{"name": "q", "in": "query", "schema": {"type": "string"}}], "responses": jr("G")}},
                "/roles": {"get": {"operationId": "LIST-ALL", "tags": ["roles", "users2"], "responses": jr("R")}}})
+    # unions whose member names / values differ only in zero padding, digit position or case (a "natural" sort ties on them)
+    twins = {n: {"type": "object", "properties": {n.lower(): {"type": "integer"}}} for n in ("Plan1", "Plan01", "Plan001", "Plan10", "Plan2", "PlanA", "Plana")}
+    twins["Holder"] = {"type": "object", "properties": {
+        "plan": {"oneOf": [ref(n) for n in ("Plan1", "Plan01", "Plan001", "Plan10", "Plan2")]},
+        "code": {"oneOf": [{"const": "7"}, {"const": "07"}, {"const": "007"}, {"const": "10"}, {"const": "2"}]},
+        "either": {"anyOf": [ref("PlanA"), ref("Plana"), {"type": "string", "enum": ["x1", "x01"]}, {"type": "string", "enum": ["x01", "x1", "x001"]}]}}}
+    F["zero-padded-twins"] = gen.base_doc(twins, paths={"/h": {"get": {"operationId": "getH", "responses": jr("Holder")}}})
     # 3.1 tuple-like arrays (prefixItems + items): a component declared before / after what its items reference, a path-item parameter
     # shared by three operations (the schema object is parsed once per use)
     tup = lambda items: {"type": "array", "prefixItems": [{"type": "string"}, {"type": "integer"}], "items": items}  # noqa: E731
